@@ -222,6 +222,41 @@ def run(pid):
         for fe in ("byte-le", "byte-be", "sample", "channel"):
             big.append((fc, fe))
 
+    # files NOT made by the crate's encoder: FlacGen streams with variable block sizes (frames numbered by sample), every
+    # subframe type and header coding, wrapped with the same seek-table shapes (growth beyond the listed quantifier)
+    import plans as P
+    import decodechecks as D
+    ngen = 6 if t == "quick" else 40
+    gplans = []
+    for i in range(ngen):
+        p = P.stream_plan(rnd, 500 + i, small=True, nframes=rnd.randint(5, 12), variable=(i % 3 != 2),
+                          size_pool=[16, 17, 20, 31, 32, 40, 64])
+        p["md5"] = "good"
+        p["total_known"] = True
+        for f in p["frames"]:
+            f["overlong"] = 0
+        gplans.append(p)
+    byp = {p["id"]: p for p in gplans}
+    ngiven = 0
+    for g in D.generate(wd, gplans, "rd", k=min(8, ngen)):
+        if not g["ok"] or g["selfErrs"] or not g["selfSame"]:
+            continue
+        p = byp[g["id"]]
+        off = s0 = 0
+        frs = []
+        for f, ln in zip(p["frames"], g["frameLens"]):
+            frs.append([s0, off, f["bs"]])
+            s0 += f["bs"]
+            off += ln
+        gp = os.path.join(wd, "given_%d.json" % g["id"])
+        json.dump({"bytes": g["bytes"], "pcm": g["pcm"], "frames": frs}, open(gp, "w"))
+        fc = dict(id="G%d" % g["id"], channels=p["channels"], bps=p["bps"], block_size=max(f["bs"] for f in p["frames"]), frames=s0,
+                  seek=rnd.choice(list(SHAPES)), known=rnd.random() < 0.8, signal="given", seed=rnd.randint(1, 10 ** 6), given=gp)
+        ngiven += 1
+        for fe in ("byte-le", "byte-be", "sample", "channel"):
+            big.append((fc, fe))
+    log("[%s] %d generator-made files (variable block sizes) join the random-history drivers" % (pid, ngiven))
+
     def drive_big(cf):
         fc, fe = cf
         tag = "%s_%s" % (fc["id"], fe.replace("-", ""))
